@@ -28,8 +28,12 @@ Definition dot_path (k : list N) : list N := 36 :: 46 :: esc_dot_cps k.
 (* keys the dot spelling is defined for: no control character *)
 Definition dot_char (c : N) : bool := negb (in_ranges c [(0, 31); (127, 127)]).
 
-(* a path of name steps, each in one of the three spellings, index steps [digits], wildcard steps .* / [*], each possibly after `..`:  $ step step ...  *)
-Inductive kstep := SBr (q : N) (k : list N) | SDot (k : list N) | SIdx (ds : list N) | SWild (dot : bool).
+(* a path of name steps, each in one of the three spellings, index steps [digits], wildcard steps .* / [*], slice steps [a:b] / [a:b:c], each possibly after `..`:  $ step step ...  *)
+(* the text between the brackets of a slice: start ':' end, then ':' step when written *)
+Definition slice_body (a b : list N) (c : option (list N)) : list N :=
+  a ++ 58 :: b ++ match c with Some t => 58 :: t | None => [] end.
+Inductive kstep := SBr (q : N) (k : list N) | SDot (k : list N) | SIdx (ds : list N) | SWild (dot : bool)
+                 | SSlice (a b : list N) (c : option (list N)).
 Definition render_step (s : kstep) : list N :=
   match s with
   | SBr q k => 91 :: q :: esc_cps q k ++ [q; 93]
@@ -37,8 +41,9 @@ Definition render_step (s : kstep) : list N :=
   | SIdx ds => 91 :: ds ++ [93]
   | SWild true => [46; 42]
   | SWild false => [91; 42; 93]
+  | SSlice a b c => 91 :: slice_body a b c ++ [93]
   end.
-Definition step_cps (s : kstep) : list N := match s with SBr _ k | SDot k => k | SIdx ds => ds | SWild _ => [] end.
+Definition step_cps (s : kstep) : list N := match s with SBr _ k | SDot k => k | SIdx ds => ds | SWild _ => [] | SSlice _ _ _ => [] end.
 (* a step, or `..` followed by a step *)
 Inductive rstep := RPlain (s : kstep) | RRec (s : kstep).
 (* after `..` a dot name is written without its dot, and the wildcard as a bare * *)
